@@ -197,6 +197,8 @@ GInit == toks = StartToks /\ agenda = StartAgenda
 Fill(p) == /\ toks' = Append(toks, p.tok)
            /\ agenda' = p.holes \o Tail(agenda)
            /\ Len(toks') + MinToks(agenda', 1) <= MaxSize
+           \* simulation profiles: do not close a derivation before it has some depth
+           /\ (agenda' = <<>> => Len(toks') >= Prof.mindone)
 
 GNext == agenda # <<>> /\ \E p \in Prods(Head(agenda)) : Fill(p)
 GSpec == GInit /\ [][GNext]_gvars
